@@ -43,7 +43,7 @@ def abstract_of(tables, cmap, tmap):
     ptags = [tag(r.metadata, "p") for r in t.populations]
 
     def tm(x):
-        return -1 if tskit.is_unknown_time(x) else tmap.back(x)
+        return -1 if tskit.is_unknown_time(x) else tmap.inv.get(float(x), -2)   # -2: a time outside the generated grid
     a = dict(
         L=cmap.back(t.sequence_length),
         time=[tmap.back(x) for x in t.nodes.time],
@@ -60,5 +60,8 @@ def abstract_of(tables, cmap, tmap):
         ind_tag=[itags[x] if 0 <= x < len(itags) else -1 for x in t.nodes.individual],
         pop_tag=[ptags[x] if 0 <= x < len(ptags) else -1 for x in t.nodes.population],
         ind_rows=itags, pop_rows=ptags,
+        migs=[dict(left=cmap.back(g.left), right=cmap.back(g.right), node=int(g.node), source=int(g.source), dest=int(g.dest),
+                   time=tmap.back(g.time), tag=tag(g.metadata, "g")) for g in t.migrations],
+        ind_parents=[[int(p) for p in r.parents] for r in t.individuals],
     )
     return a
